@@ -91,6 +91,8 @@ struct SideSpec {
 
 #[derive(Clone)]
 pub struct Checks {
+    /// the search over tie resolutions was cut short without finding a consistent one: no verdict
+    pub undecided: bool,
     pub c16: Vec<Finding>,
     pub c17: Vec<Finding>,
     pub c18: Vec<Finding>,
@@ -110,23 +112,38 @@ pub fn check_actions(c: &SimCase, tr: &[OutEv], acts: &[Vec<TriggerAction>], whi
         };
         v.iter().filter(|f| f.known.is_none()).count() * 1000 + v.len()
     };
-    let start = (0usize, [SideSpec::default(), SideSpec::default()], Checks { c16: vec![], c17: vec![], c18: vec![] }, None::<usize>);
+    let start = (0usize, [SideSpec::default(), SideSpec::default()], Checks { undecided: false, c16: vec![], c17: vec![], c18: vec![] }, None::<usize>);
     // backtracking: a resolution is abandoned at its first finding outside the known classes
     let mut stack = vec![start.clone()];
     let mut explored = 0usize;
+    let mut truncated = false;
     while let Some((i0, sides, ch, forced)) = stack.pop() {
         explored += 1;
         if explored > 600 {
+            truncated = true;
             break;
         }
+        let before = stack.len();
         let (done, aborted) = run_from(c, tr, acts, i0, sides, ch, forced, &mut stack, Some(which));
+        if stack.len() >= 48 && stack.len() >= before {
+            // alternatives may have been dropped (see run_from)
+            truncated = true;
+        }
         if !aborted && pick(&done) < 1000 {
             return done;
         }
     }
-    // no consistent resolution: report the findings of the default one
+    // no consistent resolution found
     let mut scratch = vec![];
-    run_from(c, tr, acts, start.0, start.1, start.2, start.3, &mut scratch, None).0
+    let mut d = run_from(c, tr, acts, start.0, start.1, start.2, start.3, &mut scratch, None).0;
+    if truncated {
+        // the search was cut short: this trace gets no verdict rather than a possibly false one
+        d.undecided = true;
+        d.c16.retain(|f| f.known.is_some());
+        d.c17.retain(|f| f.known.is_some());
+        d.c18.retain(|f| f.known.is_some());
+    }
+    d
 }
 
 #[allow(clippy::too_many_arguments)]
@@ -569,6 +586,9 @@ pub fn monitor(prop: &str, c: &SimCase) -> Vec<Finding> {
             Err(e) => out.push(viol(format!("replay failed: {}", e))),
             Ok(acts) => {
                 let ch = check_actions(&cu, &tr, &acts, prop);
+                if ch.undecided {
+                    out.push(Finding { known: Some("undecided"), msg: "too many same-instant ties to resolve: no verdict for this trace".to_string() });
+                }
                 out.extend(match prop {
                     "C16" => ch.c16,
                     "C17" => ch.c17,
